@@ -128,6 +128,8 @@ def _global_case(c):
         # polynomial reproduction off the grid (boundary points on)
         if bd:
             m = trees.is_complete_level(coords[0], a[0], b[0])
+            if not c.get("dyadic_levels", True):
+                m = 0          # rotated labelling: only constants and linear functions are demanded
             p = kind[1]
             fm = CustomFunction(lambda x: [float(x[0]) ** q for q in range(p + 1)], output_length=p + 1)
             g2 = _global_grid(kind, a, b, bd)
@@ -174,9 +176,36 @@ def _local_case(c):
     return fails, (N,)
 
 
+def _reuse_case(c):
+    """ONE global grid object serves two refinement trees with the same points but different (rotated) level labellings:
+    hierarchise + interpolate the identity after each set_grid; the second answer must still be the identity"""
+    from sparseSpACE.ComponentGridInfo import ComponentGridInfo
+    kind, bd = tuple(c["basis"]), c["boundary"]
+    a, b = c["a"], c["b"]
+    key = {"grid": "global_" + kind[0], "p": kind[1], "boundary": bd, "oracle_kind": "object_reuse"}
+    fails = []
+    g = _global_grid(kind, a, b, bd)
+    n_pts = 0
+    for step, (pts, lv) in enumerate(c["sequence"]):
+        g.set_grid([list(pts)], [list(lv)])
+        P = [tuple(float(x) for x in p) for p in g.getPoints()]
+        n_pts = len(P)
+        if not P:
+            continue
+        f = _identity_function(P)
+        g.integrate(f, [max(lv)], np.array(a, dtype=float), np.array(b, dtype=float))
+        V = np.asarray(g.interpolate(P, ComponentGridInfo([max(lv)], 1)))
+        err = np.abs(V - np.eye(len(P)))
+        if not np.max(err) <= 1e-9:
+            i, j = np.unravel_index(int(np.argmax(err)), err.shape)
+            fails.append(fail("hierarchise_interpolate_identity", "step %d of %r on one grid object: unit function of %r at %r is %r" % (step, c["sequence"], P[j], P[i], V[i, j]), key))
+            break
+    return fails, (n_pts,)
+
+
 def run_case(case):
     c = case["config"]
-    fails, out = (_global_case if c["kind"] == "global" else _local_case)(c)
+    fails, out = {"global": _global_case, "local": _local_case, "reuse": _reuse_case}[c["kind"]](c)
     return {"failures": fails, "canon": core.config_key(c), "outcome": out, "nontrivial": out[0] > 1, "evals": max(1, out[0])}
 
 
@@ -205,6 +234,20 @@ def cases(tier):
     for kind in KINDS:
         for bd in (True, False):
             out.append({"config": {"kind": "global", "basis": list(kind), "boundary": bd, "a": [0.0], "b": [1.0], "trees": [list(deep)]}})
+    # object reuse with rotated level labellings (what the default rebalancing of the dimension-wise strategy produces)
+    point_sets = [[0.0, 0.25, 0.5, 0.75, 1.0], [0.0, 0.125, 0.25, 0.5, 1.0], [0.0, 0.5, 0.75, 1.0], [0.0, 0.25, 0.5, 1.0]]
+    if not q:
+        point_sets += [[0.0, 0.25, 0.375, 0.5, 0.75, 1.0], [0.0, 0.0625, 0.125, 0.25, 0.5, 1.0]]
+    for kind in KINDS:
+        if kind[1] > 3:
+            continue
+        for pts in point_sets:
+            labs = trees.level_assignments(len(pts) - 2)
+            for l1 in labs:
+                for l2 in labs:
+                    if l1 != l2:
+                        out.append({"config": {"kind": "reuse", "basis": list(kind), "boundary": True, "a": [0.0], "b": [1.0],
+                                               "sequence": [[pts, l1], [pts, l2]]}})
     # local grids
     for kind in KINDS:
         if kind[1] > 3:
@@ -234,7 +277,8 @@ def main(ctx):
     for i in (2, len(cs) // 2, len(cs) - 3):
         ctx.add_sample(cs[i])
     ctx.bounds = {"cases": len(cs), "global": sum(1 for c in cs if c["config"]["kind"] == "global"),
-                  "local": sum(1 for c in cs if c["config"]["kind"] == "local"), "bases": [list(k) for k in KINDS]}
+                  "local": sum(1 for c in cs if c["config"]["kind"] == "local"),
+                  "reuse": sum(1 for c in cs if c["config"]["kind"] == "reuse"), "bases": [list(k) for k in KINDS]}
     return ctx.finish(
         rule="one case = one grid (refinement tree(s) x basis family x order x boundary flag, or local level/sub-box); the identity "
              "(one component per grid point) is hierarchised and interpolated, every basis function is checked individually "
